@@ -75,6 +75,18 @@ inductive Sel where
   | ids (l : List Nat)
   deriving DecidableEq, Repr
 
+/-- repairs that may be present in the tree (all false = the tree as it was found) -/
+structure Fix where
+  /-- the NC_REQ_ZERO path of a collective put joins the numrecs Allreduce (findings/patches/C08-F2-zero-path.diff) -/
+  zeroPath : Bool := false
+  /-- getput_vard derives new_numrecs from the filetype only when data was written (findings/patches/C05-vard-numrecs.diff) -/
+  vardGuard : Bool := false
+  /-- req_commit scans the whole put_lead_list for marked requests (findings/patches/C02-req_commit-numrecs-bound.diff) -/
+  waitScan : Bool := false
+  deriving DecidableEq, Repr
+def Fix.none : Fix := {}
+def Fix.all : Fix := { zeroPath := true, vardGuard := true, waitScan := true }
+
 inductive Op where
   | putAll (f : Nat → PutIn)                       -- ncmpi_put_var{,1,a,s,m}*_all on a record variable
   | vardAll (f : Nat → VardIn)                     -- ncmpi_put_vard_all on a record variable
@@ -127,10 +139,10 @@ def isPutArgErr (f : Nat → PutIn) (r : Rank) : Bool :=
   | .argErr => true
   | _ => false
 
-def vardContrib (f : Nat → VardIn) (r : Rank) : Nat :=
+def vardContrib (guard : Bool) (f : Nat → VardIn) (r : Rank) : Nat :=
   match f r.id with
   | .valid e => e
-  | .noData e => e
+  | .noData e => if guard then r.numrecs else e
   | .argErr => r.numrecs
 def vardEnd (f : Nat → VardIn) (r : Rank) : Option Nat :=
   match f r.id with
@@ -174,9 +186,10 @@ def badSel (pending : List Pend) (s : Sel) : Bool :=
   !selAll pending s && (match s with
                         | .all => false
                         | .ids l => l.any fun i => !(pending.any fun p => p.id == i))
-/-- req_commit: `newnumrecs = ncp->numrecs; for (i=0; i<num_w_lead_reqs; i++) …put_lead_list[i]…` -/
-def litNew (r : Rank) (s : Sel) : Nat :=
-  let k := (marked r.pending s).length
+/-- req_commit: `newnumrecs = ncp->numrecs; for (i=0; i<num_w_lead_reqs; i++) …put_lead_list[i]…`
+    (`scan`: the repaired loop bound ncp->numLeadPutReqs) -/
+def litNew (scan : Bool) (r : Rank) (s : Sel) : Nat :=
+  let k := if scan then r.pending.length else (marked r.pending s).length
   maxOver r.numrecs (((r.pending.take k).filter fun p => isMarked r.pending s p && p.isRec).map (·.maxRec))
 /-- max_rec of the marked requests to record variables: what completing them writes -/
 def markedRecs (r : Rank) (s : Sel) : List Nat :=
@@ -185,18 +198,18 @@ def completeReqs (r : Rank) (s : Sel) : Rank :=
   { r with pending := r.pending.filter (fun p => !isMarked r.pending s p),
            own := maxOver r.own (markedRecs r s) }
 
-def stepWaitAll (w : World) (sel : Nat → Sel) : Option World :=
+def stepWaitAll (scan : Bool) (w : World) (sel : Nat → Sel) : Option World :=
   if w.indep then some w                               -- NC_EINDEP
   else if w.ranks.any (fun r => badSel r.pending (sel r.id)) then some w   -- do_io[2]: every rank returns
   else
-    let M := maxOver 0 (w.ranks.map fun r => litNew r (sel r.id))
+    let M := maxOver 0 (w.ranks.map fun r => litNew scan r (sel r.id))
     let doWrite := w.ranks.any fun r => !(marked r.pending (sel r.id)).isEmpty
     let w1 := if doWrite then raiseAll w M else w
     some { w1 with
            hi := maxOver w1.hi (w.ranks.flatMap fun r => markedRecs r (sel r.id)),
            ranks := w1.ranks.map fun r => completeReqs r (sel r.id) }
 
-def stepWait (w : World) (rk : Nat) (s : Sel) : Option World :=
+def stepWait (scan : Bool) (w : World) (rk : Nat) (s : Sel) : Option World :=
   if !w.indep then some w                              -- NC_ENOTINDEP
   else
     some { w with
@@ -204,15 +217,15 @@ def stepWait (w : World) (rk : Nat) (s : Sel) : Option World :=
            ranks := w.ranks.map fun r =>
              if r.id == rk && !badSel r.pending s then
                -- wait_getput, NC_REQ_INDEP: `if (ncp->numrecs < newnumrecs) { ncp->numrecs = newnumrecs; set_NC_ndirty }`
-               (if !(marked r.pending s).isEmpty && decide (r.numrecs < litNew r s) then
-                  { completeReqs r s with numrecs := litNew r s, dirty := true }
+               (if !(marked r.pending s).isEmpty && decide (r.numrecs < litNew scan r s) then
+                  { completeReqs r s with numrecs := litNew scan r s, dirty := true }
                 else completeReqs r s)
              else r }
 
 /-! ### one API call on all ranks -/
-def step (fx : Bool) (w : World) : Op → Option World
-  | .putAll f => collPut fx w (isPutArgErr f) (putContrib f) (putEnd f)
-  | .vardAll f => collPut fx w (isVardArgErr f) (vardContrib f) (vardEnd f)
+def step (fx : Fix) (w : World) : Op → Option World
+  | .putAll f => collPut fx.zeroPath w (isPutArgErr f) (putContrib f) (putEnd f)
+  | .vardAll f => collPut fx.zeroPath w (isVardArgErr f) (vardContrib fx.vardGuard f) (vardEnd f)
   | .putIndep rk e =>
       if !w.indep then some w                          -- NC_ENOTINDEP
       else some { w with
@@ -228,8 +241,8 @@ def step (fx : Bool) (w : World) : Op → Option World
                  { r with pending := insertPend r.pending { id := id, isRec := isRec, maxRec := if isRec then e else 0,
                                                             varBegin := vb, reqOff := ro } }
                else r }
-  | .waitAll sel => stepWaitAll w sel
-  | .wait rk s => stepWait w rk s
+  | .waitAll sel => stepWaitAll fx.waitScan w sel
+  | .wait rk s => stepWait fx.waitScan w rk s
   | .fillRec rn =>
       -- the dispatcher drops its NC_EINDEP when safe mode is off, so the mode is not looked at
       let M := maxOver 0 (w.ranks.map fun r => rn r.id + 1)
@@ -249,7 +262,7 @@ def step (fx : Bool) (w : World) : Op → Option World
       let w1 := endIndepCore w
       some { w1 with ranks := w1.ranks.map fun r => { r with numrecs := w1.hdr, dirty := false, pending := [] } }
 
-def run (fx : Bool) : World → List Op → Option World
+def run (fx : Fix) : World → List Op → Option World
   | w, [] => some w
   | w, op :: rest =>
     match step fx w op with
